@@ -24,6 +24,8 @@ R10.8  completeness: no filter on the value of an element on the way from
 R10.9  the per-rank `case` switch is generated whenever one entry of the
        pre/post list is a per-rank dict (guard strength over lists of
        str / dict entries)
+R10.10 the shell variable the per-rank `case "$V" in` switch reads is the one
+       every launcher's get_rank_cmd exports and _get_rank_ids insists on
 (R10.3 also: the named environment is sourced before the environment exports;
  the form of the stdout / stderr file name is decided by a test on that name)
 """
@@ -3520,6 +3522,158 @@ def r10_9(prog, rep, rid='R10.9'):
 
 
 # ------------------------------------------------------------------------------
+# R10.10  the rank variable: producer / consumer agreement
+#
+# The exec script learns its rank from ONE shell variable.  Three pieces of
+# generated text (and one Python test) have to name the same variable:
+#
+#   * the per-rank switch of _get_prep_exec reads it: `case "$V" in`;
+#   * every launcher's `get_rank_cmd` has to export it: `export V=...`
+#     (_get_rank_ids puts that text into the script right after RP_RANKS);
+#   * _get_rank_ids insists on `'export V=' in <text>` for multi-rank tasks.
+#
+# A launcher whose rank command exports another name (a misspelled constant)
+# leaves $V unset: no branch of the switch matches, per-rank pre/post entries
+# do not run, and the executable does not see its rank.  Nothing is matched by
+# position: the names are read from the text each function produces (TextEval:
+# whichever way the text is put together, helpers followed).
+#
+CASE_VAR_RE = re.compile(r'\bcase\s+"?\$\{?([A-Za-z_]\w*)\}?"?\s+in\b')
+EXPORT_ANY_RE = re.compile(r'(?:^|[\s;&|(])export\s+([A-Za-z_]\w*)=')
+EXPORT_LIT_RE = re.compile(r'^\s*export\s+([A-Za-z_]\w*)=?\s*$')
+
+
+def produced_texts(prog, f, K=None, depth=0, seen=None):
+    """([text pieces], complete): the constant / format pieces of the text f
+    returns (or writes), builders it calls followed; `complete` is False if
+    some piece is an expression whose text is not known"""
+    seen = seen if seen is not None else set()
+    if f.where in seen or depth > 4:
+        return [], False
+    seen.add(f.where)
+    T = TextEval(prog, f, K)
+    texts, complete = [], True
+    for it, pa in T.items():
+        if it.text is not None:
+            texts.append(it.text)
+        elif it.kind == 'call' or isinstance(it.node, ast.Call):
+            # (also `super().get_rank_cmd()`, a module level builder)
+            g = prog.resolve_call(f, it.node, K) \
+                if isinstance(it.node, ast.Call) else None
+            if g is None or g.where in seen:
+                complete = False
+                continue
+            sub, okc = produced_texts(prog, g, K, depth + 1, seen)
+            texts += sub
+            complete = complete and okc
+        else:
+            complete = False
+    if not T.returns and not T.sinks:
+        complete = False
+    return texts, complete
+
+
+def rank_variable(prog):
+    """(function, name, node) of the shell variable the per-rank switch of
+    _get_prep_exec switches on"""
+    f = prog.method(EXE[0], EXE[1], '_get_prep_exec')
+    found = []
+    todo, seen = [f], set()
+    while todo:
+        g = todo.pop()
+        if g.where in seen:
+            continue
+        seen.add(g.where)
+        T = TextEval(prog, g)
+        for it, pa in T.items():
+            if it.text is not None:
+                for m in CASE_VAR_RE.finditer(it.text):
+                    found.append((m.group(1), it.node, g))
+            elif it.kind == 'call' and len(seen) < 6:
+                h = prog.resolve_call(g, it.node)
+                if h is not None:
+                    todo.append(h)
+    names = {n for n, _, _ in found}
+    if len(names) != 1:
+        raise AnalysisError('UNRECOGNISED-IDIOM %s: the per-rank switch reads '
+                            '%s (one `case "$V" in` header expected)'
+                            % (f.where, sorted(names) or 'no variable'))
+    return f, found[0][0], found[0][1]
+
+
+def r10_10(prog, rep, classes, rid='R10.10', minimum=13):
+    rep.rule(rid, 'the shell variable which the per-rank `case` switch of '
+             '_get_prep_exec reads is the one every launcher\'s get_rank_cmd '
+             'exports (and the one _get_rank_ids insists on)', minimum=minimum)
+    fc, var, cnode = rank_variable(prog)
+    rep.saw(fc)
+    n = 0
+    for K in classes:
+        f = prog.find_method(K, 'get_rank_cmd')
+        if f is None:
+            continue
+        if f.cls is prog.cls(*LM) and not any(
+                isinstance(x, ast.Return) and x.value is not None
+                for x in walk(f.node)):
+            continue                    # the base class stub (raises)
+        rep.saw(f)
+        n += 1
+        texts, complete = produced_texts(prog, f, K)
+        names = set()
+        for t in texts:
+            names |= set(EXPORT_ANY_RE.findall(t))
+        if var not in names and not complete:
+            raise AnalysisError('UNRECOGNISED-IDIOM %s: the text of the rank '
+                                'command of %s is not known' % (f.where,
+                                                                K.name))
+        rep.check(var in names, rid, f,
+                  '%s.get_rank_cmd exports %s' % (K.name, var),
+                  construct='%s:rank variable' % K.name,
+                  message='the rank command of launcher %s (%s) exports %s but '
+                  'not %s, the variable the per-rank `case "$%s" in` switch of '
+                  '%s reads: in the exec script $%s stays unset, no branch of '
+                  'the switch matches, per-rank pre/post commands (and, once '
+                  'one entry is per-rank, all of them) are skipped and the '
+                  'executable does not see its rank'
+                  % (K.name, f.qual, ', '.join(sorted(names)) or 'nothing',
+                     var, var, fc.qual, var),
+                  loc=f.loc(),
+                  history="a task launched with %s, pre_exec=[{'0': 'export "
+                  "X=1'}] (or any CUDA task: the executor adds a per-rank "
+                  'CUDA_VISIBLE_DEVICES entry): the command does not run, $%s '
+                  'is empty in the executable' % (K.name, var))
+    if not n:
+        raise AnalysisError('R10.10: no launcher class with a rank command')
+    # the Python side: `'export V=' [not] in <text>` of _get_rank_ids
+    fr = prog.method(EXE[0], EXE[1], '_get_rank_ids')
+    rep.saw(fr)
+    consts = {}
+    for name, vals in local_defs(fr.node).items():
+        if len(vals) == 1 and isinstance(vals[0], ast.Constant) and \
+                isinstance(vals[0].value, str) and name not in fr.params:
+            consts[name] = vals[0].value
+    for x in walk(fr.node, nested=True):
+        if not (isinstance(x, ast.Compare) and len(x.ops) == 1 and
+                isinstance(x.ops[0], (ast.In, ast.NotIn))):
+            continue
+        lit = x.left.value if isinstance(x.left, ast.Constant) else \
+            consts.get(x.left.id) if isinstance(x.left, ast.Name) else None
+        m = EXPORT_LIT_RE.match(lit) if isinstance(lit, str) else None
+        if not m:
+            continue
+        rep.check(m.group(1) == var, rid, fr,
+                  'the export which _get_rank_ids insists on is that of %s'
+                  % var, construct='rank ids:required export',
+                  message='%s tests the rank command for `%s` but the per-rank '
+                  'switch reads $%s and the launchers export %s: every '
+                  'multi-rank task is refused (or a launcher which does not '
+                  'set $%s passes)' % (fr.qual, lit.strip(), var, var, var),
+                  loc=fr.loc(x),
+                  history='task with ranks=2: RuntimeError `launch method .. '
+                  'does not export ..` although the launcher does')
+
+
+# ------------------------------------------------------------------------------
 # R10.7  exit codes: the error path and the end of the scripts
 #
 # "the script's exit code is the executable's exit code unless a pre/post
@@ -4134,7 +4288,9 @@ def run(prog, rep, tier):
         "text, and the export lines depend on td['environment'] only; the "
         'per-rank switch is generated for every list of entries which holds '
         'a dict; relative / absolute form of the stdout (stderr) name is '
-        'decided by tests on that name.')
+        'decided by tests on that name; the rank command of every launcher '
+        'of the factory table exports the variable which the per-rank '
+        '`case` switch reads, and _get_rank_ids tests for that export.')
     rep.undecided = ('what bash does with the generated text: `$`, back-ticks '
         'and globs inside sh_quote\'d words (library code), the unquoted '
         'executable and pre/post commands (they are shell text by contract), '
@@ -4163,6 +4319,7 @@ def run(prog, rep, tier):
     rep.attempt(r10_6, prog, rep)
     rep.attempt(r10_7, prog, rep)
     rep.attempt(r10_9, prog, rep)
+    rep.attempt(r10_10, prog, rep, classes)
     if tier == 'thorough':
         # sweep: every launcher class of the package (not only the factory
         # table) and every executor class: argument quoting in get_exec
@@ -4173,6 +4330,12 @@ def run(prog, rep, tier):
         r10_2(prog, rep, extra, rid='R10.2s', minimum=0)
         rep.rules['R10.2s'] = 'sweep of R10.2 over launcher classes outside ' \
             'the factory table (%d)' % len(extra)
+        if any(prog.find_method(k, 'get_rank_cmd') is not None and
+               prog.find_method(k, 'get_rank_cmd').cls is not base
+               for k in extra):
+            rep.attempt(r10_10, prog, rep, extra, rid='R10.10s', minimum=0)
+            rep.rules['R10.10s'] = 'sweep of R10.10 over launcher classes ' \
+                'outside the factory table'
 
 
 # ------------------------------------------------------------------------------
@@ -4397,7 +4560,7 @@ def _corpus():
     here = os.path.dirname(os.path.dirname(os.path.dirname(
         os.path.abspath(__file__))))
     out = []
-    for n in range(1, 10):
+    for n in range(1, 11):
         name = 'C10-r%d' % n
         ed = edits_from_patch(os.path.join(here, 'seeded', name, 'patch.diff'))
         if ed:
@@ -4648,3 +4811,60 @@ SILENT += [
 ]
 
 SILENT += _corpus()
+
+
+# ---- round 5 (C10-h4, C10-r9): the rank variable; element handed to a nested
+# helper of the rank loop
+_F   = 'agent/launch_method/fork.py'
+_S   = 'agent/launch_method/ssh.py'
+_SR  = 'agent/launch_method/srun.py'
+_RC  = "        return 'export RP_RANK=0\\n'\n"
+_CS  = "        ret += 'case \"$RP_RANK\" in\\n'\n"
+_CK  = "            if 'export RP_RANK=' not in ret:\n"
+_R9  = edits_from_patch(_seeded('C10-r9')) or []
+
+MUTATIONS += [
+    dict(name='R10.10 Fork exports RP_RANKS instead of RP_RANK (seed C10-h4)', rules=('R10.10',), edits=[
+        (_F, _RC, "        return 'export RP_RANKS=0\\n'\n")]),
+    dict(name='R10.10 SSH rank command sets a lower case variable', rules=('R10.10',), edits=[
+        (_S, _RC, "        return 'export rp_rank=0\\n'\n")]),
+    dict(name='R10.10 Fork rank command through a format with the wrong name', rules=('R10.10',), edits=[
+        (_F, _RC, "        name = 'RP_RANK_ID'\n        return 'export %s=%d\\n' % (name, 0)\n")]),
+    dict(name='R10.10 Srun exports RP_RANKID on all three lines', rules=('R10.10',), edits=[
+        (_SR, "        ret  = 'test -z \"$SLURM_PROCID\" || export RP_RANK=$SLURM_PROCID\\n'\n        ret += 'test -z \"$MPI_RANK\"     || export RP_RANK=$MPI_RANK\\n'\n        ret += 'test -z \"$PMIX_RANK\"    || export RP_RANK=$PMIX_RANK\\n'\n",
+              "        ret  = 'test -z \"$SLURM_PROCID\" || export RP_RANKID=$SLURM_PROCID\\n'\n        ret += 'test -z \"$MPI_RANK\"     || export RP_RANKID=$MPI_RANK\\n'\n        ret += 'test -z \"$PMIX_RANK\"    || export RP_RANKID=$PMIX_RANK\\n'\n")]),
+    dict(name='R10.10 per-rank switch reads $RP_RANKS', rules=('R10.10',), edits=[
+        (_E, _CS, "        ret += 'case \"$RP_RANKS\" in\\n'\n")]),
+    dict(name='R10.10 _get_rank_ids insists on the export of RP_RANKS', rules=('R10.10',), edits=[
+        (_E, _CK, "            if 'export RP_RANKS=' not in ret:\n")]),
+]
+
+MUTATIONS += [] if not _R9 else [
+    dict(name='R10.3 C10-r9 form: nested helper looks every rank up under one key', rules=('R10.3',), edits=_R9 + [
+        (_E, "            return ru.as_list(entry.get(rank_key))", "            return ru.as_list(entry.get('0'))")]),
+    dict(name='R10.5 C10-r9 form: cached rank key is the int index', rules=('R10.5',), edits=_R9 + [
+        (_E, "            rank_key = str(rank_id)\n", "            rank_key = rank_id\n")]),
+    dict(name='R10.9 C10-r9 form (for / else): loop breaks on a plain entry', rules=('R10.9',), edits=_R9 + [
+        (_E, "            if isinstance(entry, dict):\n                # at least one per-rank entry: switch per rank below\n                break", "            if isinstance(entry, str):\n                break")]),
+    dict(name='R10.6 C10-r9 form: nested line helper gets the joined commands', rules=('R10.6',), edits=_R9 + [
+        (_E, "                for cmd in _rank_cmds(entry, rank_key):\n                    ret += _fmt(cmd, indent='        ')\n", "                ret += _fmt('; '.join(_rank_cmds(entry, rank_key)), indent='        ')\n")]),
+    dict(name='R10.10 C10-r9 form: switch header reads $RP_RANK_ID', rules=('R10.10',), edits=_R9 + [
+        (_E, "        ret = 'case \"$RP_RANK\" in\\n'\n", "        ret = 'case \"$RP_RANK_ID\" in\\n'\n")]),
+]
+
+SILENT += [
+    dict(name='rank variable site: Fork rank command through a format with the name in a local', edits=[
+        (_F, _RC, "        name = 'RP_RANK'\n        return 'export %s=%d\\n' % (name, 0)\n")]),
+    dict(name='rank variable site: SSH rank command from an extracted helper, text in a local', edits=[
+        (_S, "    def get_rank_cmd(self):\n\n" + _RC, "    def get_rank_cmd(self):\n\n        return self._rank_export(0)\n\n    def _rank_export(self, rank):\n        cmd = 'export RP_RANK=%d' % rank\n        return cmd + '\\n'\n")]),
+    dict(name='rank variable site: switch header with the braced variable', edits=[
+        (_E, _CS, "        ret += 'case \"${RP_RANK}\" in\\n'\n")]),
+    dict(name='rank variable site: switch header through a format', edits=[
+        (_E, _CS, "        ret += 'case \"$%s\" in\\n' % 'RP_RANK'\n")]),
+    dict(name='rank variable site: required export hoisted into a local, positive test', edits=[
+        (_E, _CK + "                raise RuntimeError('launch method %s does not export RP_RANK'\n                                   % launcher.name)\n",
+             "            needle = 'export RP_RANK='\n            if needle in ret:\n                pass\n            else:\n                raise RuntimeError('launch method %s does not export RP_RANK'\n                                   % launcher.name)\n")]),
+    dict(name='rank variable site: Srun rank command as a list of lines joined', edits=[
+        (_SR, "        ret  = 'test -z \"$SLURM_PROCID\" || export RP_RANK=$SLURM_PROCID\\n'\n        ret += 'test -z \"$MPI_RANK\"     || export RP_RANK=$MPI_RANK\\n'\n        ret += 'test -z \"$PMIX_RANK\"    || export RP_RANK=$PMIX_RANK\\n'\n",
+              "        lines = ['test -z \"$%s\" || export RP_RANK=$%s' % (v, v)\n                 for v in ('SLURM_PROCID', 'MPI_RANK', 'PMIX_RANK')]\n        ret = '\\n'.join(lines) + '\\n'\n")]),
+]
